@@ -65,6 +65,13 @@ Proof.
   - apply H. right. exact Hs'.
 Qed.
 
+Lemma nofn_add_mod : forall ss x, nofn ss -> nofn (add_mod ss x).
+Proof.
+  intros [|s ss] x H; [exact H|]. intros s' [<-|Hs'].
+  - unfold is_function. cbn. exact (H s (or_introl eq_refl)).
+  - apply H. right. exact Hs'.
+Qed.
+
 Lemma nofn_add_all : forall xs ss c, nofn ss -> nofn (add_all ss xs c).
 Proof. induction xs; intros; cbn; auto using nofn_add. Qed.
 
@@ -73,6 +80,12 @@ Proof. intros ss H s [<-|Hs]; [reflexivity|auto]. Qed.
 
 Lemma tl_add : forall ss x c, tl (add ss x c) = tl ss.
 Proof. intros [|s ss]; reflexivity. Qed.
+
+Lemma tl_add_mod : forall ss x, tl (add_mod ss x) = tl ss.
+Proof. intros [|s ss]; reflexivity. Qed.
+
+Lemma add_mod_ne : forall ss x, ss <> [] -> add_mod ss x <> [].
+Proof. intros [|s ss] x N; [congruence|discriminate]. Qed.
 
 Lemma tl_add_all : forall xs ss c, tl (add_all ss xs c) = tl ss.
 Proof. induction xs; intros; cbn; [reflexivity|]. rewrite IHxs. apply tl_add. Qed.
@@ -84,13 +97,13 @@ Lemma add_all_ne : forall xs ss c, ss <> [] -> add_all ss xs c <> [].
 Proof. induction xs; intros; cbn; auto using add_ne. Qed.
 
 Lemma effect_ne : forall ss s, ss <> [] -> effect ss s <> [].
-Proof. intros ss [] N; cbn; auto using add_ne, add_all_ne. Qed.
+Proof. intros ss [] N; cbn; auto using add_ne, add_all_ne. destruct m; auto using add_ne, add_mod_ne. Qed.
 
 Lemma tl_effect : forall ss s, tl (effect ss s) = tl ss.
-Proof. intros ss []; cbn; auto using tl_add, tl_add_all. Qed.
+Proof. intros ss []; cbn; auto using tl_add, tl_add_all. destruct m; auto using tl_add, tl_add_mod. Qed.
 
 Lemma nofn_effect : forall ss s, nofn ss -> nofn (effect ss s).
-Proof. intros ss [] H; cbn; auto using nofn_add, nofn_add_all. Qed.
+Proof. intros ss [] H; cbn; auto using nofn_add, nofn_add_all. destruct m; auto using nofn_add, nofn_add_mod. Qed.
 
 (* ---------------------------------------------------------------- run-time store: value-only updates *)
 
